@@ -46,6 +46,31 @@ def norm_text(node: ast.AST) -> str:
 EXC_ALIASES: Dict[str, List[str]] = {}
 
 
+def _plain_local_assignments(tree: ast.AST) -> None:
+    """Inside function bodies `x: T = v` becomes the plain assignment `x = v` (the annotation is kept on the node as `_ann`):
+    adding or removing a local type annotation must not change what any rule sees."""
+    class _T(ast.NodeTransformer):
+        depth = 0
+
+        def visit_FunctionDef(self, node):  # type: ignore[no-untyped-def]
+            self.depth += 1
+            self.generic_visit(node)
+            self.depth -= 1
+            return node
+
+        visit_AsyncFunctionDef = visit_FunctionDef
+
+        def visit_AnnAssign(self, node):  # type: ignore[no-untyped-def]
+            if self.depth and node.value is not None and isinstance(node.target, (ast.Name, ast.Attribute)):
+                new = ast.Assign(targets=[node.target], value=node.value)
+                ast.copy_location(new, node)
+                new._ann = node.annotation  # type: ignore[attr-defined]
+                return new
+            return node
+
+    _T().visit(tree)
+
+
 @dataclass
 class T:
     """A (very) small type: class qualified name + type arguments."""
@@ -259,6 +284,7 @@ class Program:
                 tree = ast.parse(src, filename=path)
             except SyntaxError as e:
                 raise AnalysisError(f"cannot parse {path}: {e}") from e
+            _plain_local_assignments(tree)
             modname = f"{PKG}.{fn[:-3]}" if fn != "__init__.py" else PKG
             m = Module(modname, path, os.path.relpath(path, self.repo_root), src, tree)
             self.modules[modname] = m
@@ -560,7 +586,7 @@ class Program:
             for n in ast.walk(meth.node):
                 tgt = val = ann = None
                 if isinstance(n, ast.Assign) and len(n.targets) == 1:
-                    tgt, val = n.targets[0], n.value
+                    tgt, val, ann = n.targets[0], n.value, getattr(n, "_ann", None)
                 elif isinstance(n, ast.AnnAssign):
                     tgt, val, ann = n.target, n.value, n.annotation
                 if not (isinstance(tgt, ast.Attribute) and isinstance(tgt.value, ast.Name) and tgt.value.id == sn):
@@ -679,6 +705,10 @@ class Program:
                     t = self.ann_to_type(n.annotation, m, fn)
                     if t and n.target.id not in env:
                         env[n.target.id] = t
+                elif isinstance(n, ast.Assign) and getattr(n, "_ann", None) is not None and isinstance(n.targets[0], ast.Name):
+                    t = self.ann_to_type(n._ann, m, fn)  # type: ignore[attr-defined]
+                    if t and n.targets[0].id not in env:
+                        env[n.targets[0].id] = t
                 elif isinstance(n, ast.Assign) and len(n.targets) == 1:
                     tg = n.targets[0]
                     if isinstance(tg, ast.Name) and tg.id not in env:
@@ -829,6 +859,13 @@ class Program:
         while t.parent is not None and isinstance(t.node, ast.Lambda):
             t = t.parent
         return t.qname in self.known
+
+    def is_transparent(self, f: FunctionInfo) -> bool:
+        """A later-introduced helper that the CFG builder can inline into its callers (so its constructs are judged in
+        their context).  Generators / coroutines cannot be inlined: they are judged as functions of their own."""
+        if self.is_known(f) or isinstance(f.node, ast.Lambda) or f.is_property:
+            return False
+        return not any(isinstance(x, (ast.Yield, ast.YieldFrom, ast.Await)) for x in ast.walk(f.node))
 
     # ----------------------------------------------------------- conveniences
     def fn(self, qname: str) -> FunctionInfo:
